@@ -127,6 +127,11 @@ def fault_atoms():
         # subscribers that return a Future / gather / Task / custom awaitable
         [["odd_subs"], ["fin"], ["status"]],
         [["odd_subs"], ["wfail", 1]],
+        # no connection subscriber at all / no message subscriber / nobody listening
+        [["drop_subs", "conn"], ["fin"], ["status"]],
+        [["drop_subs", "conn"], ["rst"], ["adv", 0.5], ["wfail", 1]],
+        [["drop_subs", "msg"], ["status"], ["fin"]],
+        [["drop_subs", "both"], ["status"], ["rst"], ["status"]],
     ]
 
 
@@ -299,6 +304,9 @@ async def recovery_tail(gen, w, run, out):
     # it still needs (it is the application's time, not the client's)
     w.conn_delays.clear()
     w.msg_delays.clear()
+    if getattr(w, "dropped_subs", None) in ("msg", "both"):
+        # (the probe is observed through the message subscriber: it listens again)
+        w.sock.subscribe_on_message_received(w._on_msg)
     now = loop.time()
     busy = max([t + d["delay"] - now for _, t, k, d in log.events
                 if k in ("SUB.conn_slow", "SUB.msg_slow")] + [0.0])
@@ -429,7 +437,9 @@ def judge(gen, run, out):
     if not out.get("done"):
         v("recovery-oracle-did-not-finish", oracle=out)
         return viol, obs
-    if out["last_conn_notification"] is not True and not out.get("reconnected_during_probe"):
+    if getattr(run.world, "dropped_subs", None) in ("conn", "both"):
+        obs["sockets_without_a_connection_subscriber"] = 1
+    elif out["last_conn_notification"] is not True and not out.get("reconnected_during_probe"):
         # the notification must say connected once recovered
         conn_events = [d["connected"] for _, _, k, d in log.events if k == "SUB.conn"]
         if not conn_events or conn_events[-1] is not True:
